@@ -28,7 +28,7 @@ def norm_bind(e):
     a = e["act"]
     if "env" in a:
         a["env"] = sorted(a["env"])
-    e["obs"] = {"made": sorted(e["obs"]["made"])}
+    e["obs"] = {"made": sorted(e["obs"]["made"]), "conf": e["obs"]["conf"]}
     return e
 
 
@@ -48,8 +48,9 @@ def run(tier, seed, replay_path):
         return do_replay(replay_path)
     # ---- part 1
     bc = bind_cfg(maxops=6 if tier == "quick" else 7)
-    model_check(ev, "MCJobBind", bc, role="JobBind: NoCrossTalk", tag="c17b", require_actions=("Create", "Use"))
+    model_check(ev, "MCJobBind", bc, role="JobBind: NoCrossTalk", tag="c17b", require_actions=("Create", "Use", "Reconfigure"))
     expect_violation("MCJobBind", bind_cfg("DevShared"), ("NoCrossTalk",), tag="c17dev")
+    expect_violation("MCJobBind", bind_cfg("DevFrozen"), ("NoCrossTalk",), tag="c17dev")
     edges = [norm_bind(e) for e in emit_graph(ev, "MCJobBind", bc, role="JobBind edges", tag="c17be")]
     g = replay.Graph(edges, key_fields_drop=("out", "exe", "np", "env"))
     stats, viol, _, _, samples = replay.cover(g, JobBindAdapter, seed=seed, max_path=8)
@@ -75,7 +76,7 @@ def run(tier, seed, replay_path):
     rnd.shuffle(paths)
     short = [p for p in paths if len(json.loads(p[0])["cmds"]) <= 2]
     longer = [p for p in paths if len(json.loads(p[0])["cmds"]) > 2]
-    chosen = short + longer[: (130 if tier == "quick" else 100000)]
+    chosen = short + longer[: (250 if tier == "quick" else 100000)]
     stats2, viol2, samples2 = replay.run_paths(g2, chosen, JobRunAdapter, nproc=14)
     stats2["jobs_in_model"] = len(paths)
     ev.count(evaluations=stats2["steps"], distinct_nontrivial=stats2["pairs_exercised"], traces=stats2["paths"])
